@@ -39,3 +39,7 @@ Proof. exact decenter_center. Qed.
 Theorem C17_ihaar_inverts_haar_2d : forall m n f, rect (2 * m) (2 * n) f ->
   ihaar2d (2 * n) (2 * m) (haar2d (2 * n) (2 * m) f) = f.
 Proof. exact ihaar2d_haar2d. Qed.
+
+(* the two passes multiply the sum of squares by 4: the energy-preserving transform (coefficients halved) conserves it *)
+Theorem C17_haar_energy_2d : forall m n f, rect (2 * m) (2 * n) f -> sumsq2 (haar2d (2 * n) (2 * m) f) = 4 * sumsq2 f.
+Proof. exact haar2d_energy. Qed.
